@@ -402,6 +402,7 @@ def run(tier):
         res.instance("C14.R4", "%s.%s consulted at %s" % (rec, fld, where[:3]), bool(where), finding=f)
     rule_R5(res, prog, cg)
     rule_R6(res, prog)
+    rule_R7(res, prog)
     rule_R1e(res, prog)
     return res.finish()
 
@@ -640,4 +641,71 @@ def rule_R6(res, prog):
                              ("the data argument is not the ticket's first byte" if not data_ok else
                               "the length is not <input length> - <compared MAC length %s>" % sorted(cmpK))), file=fn.relfile, line=ln)
         res.instance(rid, "matrixUnlockSessionTicket:%s %s(%s, %s)" % (ln, c["fn"], pp(c["a"][1])[:20], pp(c["a"][2])[:30]), ok, finding=f_)
+    res.floor(rid, 1)
+
+
+def rule_R7(res, prog):
+    """A session id whose resumption was refused is not kept by the server session: in parseClientHello every path from the
+    failing outcome of matrixResumeSession to a non-error return clears ssl->sessionIdLen, unless TLS 1.3 is the
+    *negotiated* version (where the id is only echoed and never registered).  Otherwise the following full handshake
+    registers its own master secret under the client's id - the entry of another, still cached session."""
+    from sa import cfgutil as cu
+    rid = "C14.R7"
+    res.rule(rid, "a refused session id is cleared before the full handshake continues (unless TLS 1.3 is negotiated)")
+    fn = prog.fn("parseClientHello")
+    v13 = prog.enums["v_tls_1_3_any"]
+    sites = cu.find_sites(fn, lambda n: n.get("k") == "call" and n.get("fn") == "matrixResumeSession")
+    if not sites:
+        raise AnalysisBroken("C14.R7: parseClientHello no longer calls matrixResumeSession")
+    gf = cu.guard_facts(fn)
+    for (bid, idx, ln, call) in sites:
+        def exempt(b, k, call=call):
+            t = b.get("term")
+            if t is None or "c" not in t or len(b["succ"]) != 2:
+                return False
+            for (txt, tr, nd) in cu._cond_atoms(t["c"], k == 0):
+                nd0 = strip(nd)
+                # success outcome of the lookup
+                if nd0 is not None and any(m is call for m in walk(nd0)):
+                    if nd0.get("k") == "bin" and nd0["op"] in (">=", "==") and tr:
+                        return True
+                    if nd0.get("k") == "bin" and nd0["op"] == "<" and not tr:
+                        return True
+                    if nd0 is call and not tr:
+                        return True
+                # TLS 1.3 negotiated
+                if tr and txt == "(ssl->activeVersion & %d)" % v13:
+                    return True
+            return False
+
+        def clears(x):
+            return any(m.get("k") == "bin" and m["op"] == "=" and (strip(m["l"]) or {}).get("f") == "sessionIdLen" and
+                       (strip(m["r"]) or {}).get("k") == "int" and strip(m["r"])["v"] == 0 for m in walk(x))
+
+        PD = prog.const("SSL_PROCESS_DATA")
+
+        def target(xr):
+            e_ = strip(xr.get("e")) if xr.get("e") is not None else None
+            if e_ is not None and e_.get("k") == "int" and e_["v"] == PD:
+                return True           # "flight complete, write the response": the handshake goes on
+            bid_ = next((bb["id"] for bb in fn.blocks for i_, l_, x_ in cu.block_exprs(bb) if x_ is xr), None)
+            return cu.success_ret(xr) and not (bid_ is not None and cu.ret_is_error(gf, bid_, xr))
+        # start at the element that contains the call (its own condition edges are judged by `exempt`)
+        b0 = fn.bmap[bid]
+        esc = None
+        t0 = b0.get("term")
+        for k, sc in enumerate(b0["succ"]):
+            if sc.get("b") is None or exempt(b0, k):
+                continue
+            e_ = cu.escapes(fn, (sc["b"], None), clears, exempt_edge=exempt, is_target=target)
+            if e_ is not None:
+                esc = e_
+        f_ = None
+        if esc is not None:
+            f_ = Finding(PROP, rid, fn.name, "refused session id kept",
+                         "%s:%s parseClientHello(): after matrixResumeSession refused the id, a path (via lines %s) reaches the non-error "
+                         "return at line %s without ssl->sessionIdLen = 0 and without TLS 1.3 being the negotiated version: the full "
+                         "handshake that follows is registered under the client's id and overwrites the cached session of that id "
+                         "with this session's secret" % (fn.relfile, ln, [p_[1] for p_ in esc[-6:-1]], esc[-1][1]), file=fn.relfile, line=ln)
+        res.instance(rid, "parseClientHello:%s refused id cleared on every non-1.3 path" % ln, esc is None, finding=f_)
     res.floor(rid, 1)
